@@ -1,3 +1,5 @@
+import re
+
 from mindsdb_sql.parser.ast.base import ASTNode
 from mindsdb_sql.parser.utils import indent
 
@@ -13,5 +15,10 @@ class Variable(ASTNode):
         return indent(level) + f'Variable(value={repr(self.value)}{alias_str}, is_system_var={repr(self.is_system_var)})'
 
     def get_string(self, *args, **kwargs):
-        return ('@@' if self.is_system_var else '@') + f'{str(self.value)}'
+        value = str(self.value)
+        if not re.fullmatch(r'[a-zA-Z_.$]+', value):
+            # a name that was written quoted (@`a b`) is printed quoted, else it is read back as `@a` followed by text
+            quote = '`' if '`' not in value else ('"' if '"' not in value else "'")
+            value = f'{quote}{value}{quote}'
+        return ('@@' if self.is_system_var else '@') + value
 
